@@ -28,25 +28,32 @@ BUDGET = {'quick': 1800, 'thorough': 3600}
 
 
 class Member(object):
-    def __init__(self, ctx, name, dim):
+    """a member constraint: an uninterpreted function; idempotent (a projection) unless idem=False (then it may need several
+    applications to reach a fixed point); inplace=True writes its result into the argument and returns the argument"""
+    def __init__(self, ctx, name, dim, idem=True, inplace=False):
         self.ctx, self.uf, self.dim = ctx, ctx.ufunc(name, dim, nout=dim), dim
+        self.idem, self.inplace = idem, inplace
         self.ncalls = 0
 
     def __call__(self, x):
         self.ncalls += 1
         xs = L.vec(x)
         y = self.uf(xs)
-        self.ctx.assume(veq(self.uf(y), y))
+        if self.idem:
+            self.ctx.assume(veq(self.uf(y), y))
+        if self.inplace:
+            x[:] = list(y)
+            return x
         return list(y)
 
     def fixes(self, y):
         return veq(self.uf(list(y)), list(y))
 
 
-def combinator(kind, n, maxiter, dim):
+def combinator(kind, n, maxiter, dim, idem=True, inplace=False, calls=1):
     def h(ctx):
         import mystic.constraints as C
-        ms = [Member(ctx, 'c%d' % k, dim) for k in range(n)]
+        ms = [Member(ctx, 'c%d' % k, dim, idem=idem, inplace=inplace) for k in range(n)]
         flags = []
 
         def onexit(v):
@@ -60,17 +67,22 @@ def combinator(kind, n, maxiter, dim):
             a = C.not_(ms[0], maxiter=maxiter, onexit=onexit, onfail=onfail)
         else:
             a = getattr(C, kind)(*ms, maxiter=maxiter, onexit=onexit, onfail=onfail)
-        x = ctx.reals('x', dim)
-        y = L.vec(a(list(x)))
-        obs = [('exactly-one-of-onexit-onfail-fired-once', const(flags in (['exit'], ['fail'])))]
-        if flags == ['exit']:
-            if kind == 'and_':
-                for k, m in enumerate(ms):
-                    obs.append(('success-implies-fixed-by-member[%d]' % k, m.fixes(y)))
-            elif kind == 'or_':
-                obs.append(('success-implies-fixed-by-some-member', Or(*[m.fixes(y) for m in ms])))
-            else:
-                obs.append(('success-implies-changed-by-member', Not(ms[0].fixes(y))))
+        obs = []
+        for call in range(calls):
+            # (the same combined object is called again with another input: nothing may be carried over between calls)
+            tag = '' if calls == 1 else '@call%d' % call
+            del flags[:]
+            x = ctx.reals('x' if call == 0 else 'x%d_' % call, dim)
+            y = L.vec(a(list(x)))
+            obs.append(('exactly-one-of-onexit-onfail-fired-once' + tag, const(flags in (['exit'], ['fail']))))
+            if flags == ['exit']:
+                if kind == 'and_':
+                    for k, m in enumerate(ms):
+                        obs.append(('success-implies-fixed-by-member[%d]%s' % (k, tag), m.fixes(y)))
+                elif kind == 'or_':
+                    obs.append(('success-implies-fixed-by-some-member' + tag, Or(*[m.fixes(y) for m in ms])))
+                else:
+                    obs.append(('success-implies-changed-by-member' + tag, Not(ms[0].fixes(y))))
         ctx.observe('flags', ''.join(flags))
         return obs
     return h
@@ -171,6 +183,17 @@ def instances(tier, seed):
     for mi in ((1, 2) if q else (1, 2, 3)):
         for dim in (1, 2):
             out.append(Instance('constraints.not_/maxiter=%d/dim=%d' % (mi, dim), combinator('not_', 1, mi, dim)))
+    # members that are not projections (need several applications), written in the in-place style, the combined object called
+    # twice, and iteration caps large enough for the cycling phase to run several rounds
+    for kind in ('and_', 'or_'):
+        for n, mi in (((2, 4),) if q else ((1, 3), (2, 4), (2, 5), (3, 5))):
+            for idem, inplace in ((False, False), (False, True), (True, True)):
+                tag = '%s%s' % ('projection' if idem else 'not-idempotent', '-inplace' if inplace else '')
+                out.append(Instance('constraints.%s/members=%d/maxiter=%d/dim=1/%s' % (kind, n, mi, tag), combinator(kind, n, mi, 1, idem=idem, inplace=inplace)))
+        out.append(Instance('constraints.%s/members=2/maxiter=3/dim=1/called-twice' % kind, combinator(kind, 2, 3, 1, calls=2)))
+        if not q:
+            out.append(Instance('constraints.%s/members=2/maxiter=4/dim=1/called-twice/not-idempotent' % kind, combinator(kind, 2, 4, 1, idem=False, calls=2)))
+    out.append(Instance('constraints.not_/maxiter=3/dim=1/not-idempotent', combinator('not_', 1, 3, 1, idem=False)))
     for dim in (1, 2):
         out.append(Instance('couplers/dim=%d' % dim, couplers(dim)))
     for kind in ('and_', 'or_'):
